@@ -426,14 +426,20 @@ def optQ (k : String) : Option String → Quals
   | some v => [(k, [v])]
   | none => []
 
-def Cand.toBio (r : Rec) (c : Cand) (num : Option Nat) : E (List Bio) := do
-  if c.children.any (fun i => decide (i ≥ r.protos.length)) then throw "value-error"
+/-- the qualifiers `CandidateCluster.to_biopython` hands to the base classes (with `contig_edge`) -/
+def candX (r : Rec) (c : Cand) (num : Option Nat) : Quals :=
   let q : Quals := (match num with | some n => [("candidate_cluster_number", [strOfInt n])] | none => []) ++
     [("kind", [c.kind]), ("product", c.products r),
      ("protoclusters", c.children.map fun (i : Nat) => strOfInt (i + 1)),
      ("detection_rules", c.rules r)] ++ optQ "SMILES" c.smiles ++ optQ "polymer" c.polymer
-  let b ← collToBio c.feat q (num.map fun _ => c.edge r)
-  pure [b]
+  match num with
+  | some _ => Q.set q "contig_edge" [boolStr (c.edge r)]
+  | none => q
+
+def Cand.toBio (r : Rec) (c : Cand) (num : Option Nat) : E (List Bio) :=
+  -- `cluster.get_protocluster_number()` raises for a child that is not in the record
+  if c.children.any (fun i => decide (i ≥ r.protos.length)) then throw "value-error"
+  else (c.feat.toBio (candX r c num)).map fun b => [b]
 
 /-- `CandidateCluster.from_biopython(bio, record=r)` -/
 def Cand.fromBio (r : Rec) (b : Bio) : E Cand := do
@@ -475,15 +481,19 @@ def Reg.rules (r : Rec) (g : Reg) : List String :=
 def Reg.edge (r : Rec) (g : Reg) : Bool :=
   collEdge g.feat.loc r.len (((childSubs r g).map (·.edge r.len)) ++ ((childCands r g).map (·.edge r)))
 
-def Reg.toBio (r : Rec) (g : Reg) (num : Option Nat) : E (List Bio) := do
-  if g.cands.any (fun i => decide (i ≥ r.cands.length)) || g.subs.any (fun i => decide (i ≥ r.subs.length)) then
-    throw "value-error"
+def regX (r : Rec) (g : Reg) (num : Option Nat) : Quals :=
   let q : Quals := (match num with | some n => [("region_number", [strOfInt n])] | none => []) ++
     [("product", g.products r), ("rules", g.rules r),
      ("subregion_numbers", g.subs.map fun (i : Nat) => strOfInt (i + 1)),
      ("candidate_cluster_numbers", g.cands.map fun (i : Nat) => strOfInt (i + 1))]
-  let b ← collToBio g.feat q (num.map fun _ => g.edge r)
-  pure [b]
+  match num with
+  | some _ => Q.set q "contig_edge" [boolStr (g.edge r)]
+  | none => q
+
+def Reg.toBio (r : Rec) (g : Reg) (num : Option Nat) : E (List Bio) :=
+  if g.cands.any (fun i => decide (i ≥ r.cands.length)) || g.subs.any (fun i => decide (i ≥ r.subs.length)) then
+    throw "value-error"
+  else (g.feat.toBio (regX r g num)).map fun b => [b]
 
 def parseNums (l : List String) : E (List Int) :=
   l.mapM fun s => match intOfStr s with | some i => pure i | none => throw "value-error"
@@ -635,16 +645,21 @@ def entLt (r : Rec) (a b : Ent) : Bool :=
     if isChild r a b then true else areaLt (entLoc r a) (entLoc r b)
   else featLt ⟨entLoc r a, entType r a, [], [], false, none⟩ ⟨entLoc r b, entType r b, [], [], false, none⟩
 
+/-- the plain features of the given classes, class by class, each class in list order -/
+def plainEnts (r : Rec) (ranks : List Nat) : List Ent :=
+  let indexed : List Ent := (List.range r.others.length).filterMap fun i => (r.others[i]?).map (Ent.plain i)
+  ranks.flatMap fun k => indexed.filter fun e => match e with
+    | .plain _ f => classRank f.type == k
+    | _ => false
+def cdsEnts (r : Rec) : List Ent := (List.range r.cdss.length).filterMap fun i => (r.cdss[i]?).map (Ent.cds i)
+def subEnts (r : Rec) : List Ent := (List.range r.subs.length).map Ent.sub
+def protoEnts (r : Rec) : List Ent := (List.range r.protos.length).map Ent.proto
+def candEnts (r : Rec) : List Ent := (List.range r.cands.length).map Ent.cand
+def regEnts (r : Rec) : List Ent := (List.range r.regs.length).map Ent.reg
+
 /-- `Record.all_features` -/
 def allEntries (r : Rec) : List Ent :=
-  let indexed : List Ent := (List.range r.others.length).filterMap fun i => (r.others[i]?).map (Ent.plain i)
-  let plain (ranks : List Nat) : List Ent :=
-    ranks.flatMap fun k => indexed.filter fun e => match e with
-      | .plain _ f => classRank f.type == k
-      | _ => false
-  plain [0, 1, 2] ++ (List.range r.cdss.length).filterMap (fun i => (r.cdss[i]?).map (Ent.cds i)) ++ plain [4, 5, 6, 7] ++
-  (List.range r.subs.length).map Ent.sub ++ (List.range r.protos.length).map Ent.proto ++
-  (List.range r.cands.length).map Ent.cand ++ (List.range r.regs.length).map Ent.reg
+  plainEnts r [0, 1, 2] ++ cdsEnts r ++ plainEnts r [4, 5, 6, 7] ++ subEnts r ++ protoEnts r ++ candEnts r ++ regEnts r
 
 def entToBio (r : Rec) : Ent → E (List Bio)
   | .plain _ f | .cds _ f => do pure [← f.toBio]
@@ -723,14 +738,23 @@ def addBio (r : Rec) (b : Bio) : E Rec := do
     else pure { r with others := r.others ++ [← plainFromBio b] }
   else pure { r with others := r.others ++ [← plainFromBio b] }
 
-/-- the loop body of `Record.from_biopython` over `seq_record.features` → (record, postponed) -/
-def readStep (acc : Rec × List Bio) (b0 : Bio) : E (Rec × List Bio) := do
-  let r := acc.1
-  if b0.loc.parts.length > 1 && b0.loc.start == 0 && b0.loc.end == r.len && !r.circular then throw "value-error"
-  let b : Bio := if b0.type == "misc_feature" && bridgesOrigin b0.loc then { b0 with loc := removeRedundantExons b0.loc } else b0
-  if b.type == "cand_cluster" || b.type == "region" || b.type == "aSModule" then pure (r, acc.2 ++ [b])
-  else if b.type != "CDS" || decide (b.loc.len ≥ 3) then pure (← addBio r b, acc.2)
+/-- "feature contains an origin spanning exon while in a linear record" -/
+def linearSpan (r : Rec) (b : Bio) : Bool :=
+  decide (b.loc.parts.length > 1) && b.loc.start == 0 && b.loc.end == r.len && !r.circular
+
+/-- the NCBI Pfam `misc_feature` clean-up -/
+def prefilter (b : Bio) : Bio :=
+  if b.type == "misc_feature" && bridgesOrigin b.loc then { b with loc := removeRedundantExons b.loc } else b
+
+/-- postponed types are collected, everything else is added at once (a CDS only when it has a codon) -/
+def dispatch (acc : Rec × List Bio) (b : Bio) : E (Rec × List Bio) :=
+  if b.type == "cand_cluster" || b.type == "region" || b.type == "aSModule" then pure (acc.1, acc.2 ++ [b])
+  else if b.type != "CDS" || decide (b.loc.len ≥ 3) then do pure (← addBio acc.1 b, acc.2)
   else pure acc
+
+/-- the loop body of `Record.from_biopython` over `seq_record.features` → (record, postponed) -/
+def readStep (acc : Rec × List Bio) (b0 : Bio) : E (Rec × List Bio) :=
+  if linearSpan acc.1 b0 then throw "value-error" else dispatch acc (prefilter b0)
 
 /-- `_stored_candidate_number` -/
 def storedNumber (b : Bio) : Int :=
